@@ -287,17 +287,24 @@ def check_head_count(ck: Checker, rid: str, f, label: str):
     for n in cfg.nodes:
         if n.kind == 'stmt' and isinstance(n.ast, ast.Assign) and dotted(n.ast.value) == 'self.n' and isinstance(n.ast.targets[0], ast.Name):
             limit.add(n.ast.targets[0].id)
+    MIRROR = {ast.Lt: ast.Gt, ast.Gt: ast.Lt, ast.LtE: ast.GtE, ast.GtE: ast.LtE, ast.Eq: ast.Eq, ast.NotEq: ast.NotEq}
     tests = []
+    oriented = {}
     for n in cfg.nodes:
-        if n.kind == 'test' and hn.id in n.loops and isinstance(n.ast, ast.Compare) and len(n.ast.ops) == 1 and isinstance(n.ast.left, ast.Name) and (dotted(n.ast.comparators[0]) in limit):
-            tests.append(n)
+        if n.kind == 'test' and hn.id in n.loops and isinstance(n.ast, ast.Compare) and len(n.ast.ops) == 1:
+            l_, r_, o_ = n.ast.left, n.ast.comparators[0], type(n.ast.ops[0])
+            if isinstance(l_, ast.Name) and dotted(r_) in limit:
+                tests.append(n)
+                oriented[n.id] = (l_.id, o_)
+            elif isinstance(r_, ast.Name) and dotted(l_) in limit and r_.id not in limit and o_ in MIRROR:
+                tests.append(n)  # `limit <= counter`: read as `counter >= limit`
+                oriented[n.id] = (r_.id, MIRROR[o_])
     probs = []
     if len(tests) != 1:
         ck.ob(rid, f, hn.ast, False, f'{len(tests)} comparisons of a counter with the limit `self.n` found in the loop (expected one)')
         return
     t = tests[0]
-    cnt = t.ast.left.id
-    op = type(t.ast.ops[0])
+    cnt, op = oriented[t.id]
     leave = {ast.GtE: 'T', ast.Eq: 'T', ast.Lt: 'F', ast.NotEq: 'F'}.get(op)
     if leave is None:
         probs.append(f'the loop is left on `{norm_text(t.ast)}`: with `>`/`<=` one element too many (or too few) is yielded')
